@@ -162,6 +162,8 @@ def make_desc(seed, i, tier):
     desc = gw.gen(rng, whole_col=(tier == 'thorough' and i % 40 == 0))
     if i % 4 == 1:
         gw.add_adjacent_arrays(rng, desc)
+    if i % 5 == 2:
+        desc['spill_cache'] = True      # .xlsx files as Excel saves them
     if i % 3 == 0:
         # constants of very small and very large magnitude (stored values must
         # survive loading from a file as they do from a dictionary)
